@@ -88,7 +88,7 @@ theorem parseElems_succ (cfg : Cfg) (f L : Nat) (s : St) (acc : List Val) :
 def pmKey (cfg : Cfg) (f : Nat) (s : St) : Code × List Byte × St :=
   let (c, s) := cur s
   if c == 0x22 || c == 0x27 then parseQuoted cfg c (f+1) [] 0 (mv s)
-  else if inUnquoted c then let (k, s) := parseUnquoted (f+1) [] s; (.ok, k, s)
+  else if inUnquoted c then let (k, s) := parseUnquoted (f+1) [] s; ((if k.length > cfg.maxStrLen then .noMemory else .ok), k, s)
   else (.invalid, [], s)
 
 /-- after the white space that follows `,` -/
